@@ -7,7 +7,7 @@ from .. import oracle as o
 
 ID = 'C20'
 RULE = ('(a) the quick workloads of C01-C15 and C18 are executed by {release, release+overflow-checks+debug-assertions, dev} binaries: logs (values and PANIC records) must be '
-        'byte-identical; (b) BLAKE2b/2s contexts with the byte counter preset next to 2^32, 2^64 (s) and 2^64, 2^128 (b) then fed 0-300 bytes must equal the RFC 7693 model with the '
+        'byte-identical, and the same comparison at volume over bulk lines (millions of curve / field / scalar / Poly1305 calls per profile, compared through block hashes); (b) BLAKE2b/2s contexts with the byte counter preset next to 2^32, 2^64 (s) and 2^64, 2^128 (b) then fed 0-300 bytes must equal the RFC 7693 model with the '
         'same starting counter in all three profiles (cipher block counters next to their word boundaries come with the C03/C04 workloads); (c) every documented invalid argument shape '
         'per entry point, executed twice in each profile, must be refused by PANIC / Err / the type system, never return bytes; (d) sanitizer passes (Miri Tree Borrows, ASan, '
         'memcheck) over boundary subsets of all workloads plus all of (b) and (c): any report with a frame inside the crate is a violation; '
@@ -17,6 +17,9 @@ ASSUMPTIONS = ['rel outputs are compared with the specification by C01-C15/C18 t
                'Miri is run with Tree Borrows (the Stacked Borrows report in cryptoutil::read_u32v_be concerns the aliasing model, not one of the properties)']
 FLOORS = {'evaluations': 100000, 'distinct': 20000}
 PROFILES = ['rel', 'chk', 'dbg']
+# bulk lines executed by all three profiles: (kind, calls, block)
+BULK = {'quick': [('x25519', 1 << 15, 1024), ('x25519_base', 1 << 13, 1024), ('ed_sign', 1 << 13, 512), ('sc_reduce', 1 << 20, 1 << 14), ('fe_mix', 1 << 20, 1 << 14), ('fe_inv', 1 << 14, 1024), ('ge_dsm', 1 << 12, 512), ('poly1305', 1 << 20, 1 << 14)],
+        'thorough': [('x25519', 1 << 20, 4096), ('x25519_base', 1 << 18, 4096), ('ed_sign', 1 << 18, 4096), ('sc_reduce', 1 << 25, 1 << 16), ('fe_mix', 1 << 25, 1 << 16), ('fe_inv', 1 << 19, 4096), ('ge_dsm', 1 << 17, 4096), ('poly1305', 1 << 24, 1 << 16)]}
 SOURCES = ['c01', 'c02', 'c03', 'c04', 'c05', 'c06', 'c07', 'c08', 'c09', 'c10', 'c11', 'c12', 'c13', 'c14', 'c15', 'c18']
 
 
@@ -24,7 +27,7 @@ SOURCES = ['c01', 'c02', 'c03', 'c04', 'c05', 'c06', 'c07', 'c08', 'c09', 'c10',
 def counter_cases(rng, thorough):
     ks = [1, 63, 64, 65, 127, 128, 129, 192, 256, 257]
     for fam, W, bs, maxo, maxk in (('b2s', 32, 64, 32, 32), ('b2b', 64, 128, 64, 64)):
-        for wrap in (1 << W, 1 << (2 * W)):
+        for wrap in (1 << W, 2 << W, 3 << W, 1 << (2 * W)):      # first, second and third carry into the high word, and the full wrap
             for k in ks:
                 t = wrap - k
                 for n in [0, 1, bs - 1, bs, bs + 1, 2 * bs, 2 * bs + 1, 300] + ([rng.rng(0, 600) for _ in range(6)] if thorough else [rng.rng(0, 400)]):
@@ -115,8 +118,8 @@ def refusal_cases(rng):
         add('sc xchacha 20 %s %s p.0.00' % (k32, rng.data(nl)), 0, 'xchacha-noncelen/%d' % nl)
         add('sc xsalsa 20 %s %s p.0.00' % (k32, rng.data(nl)), 0, 'xsalsa-noncelen/%d' % nl)
     for r in (0, 7, 10, 21):
-        for v, key, nonce in (('chacha', k32, n12), ('chacha', k16, n12), ('xchacha', k32, n24), ('chachao', k32, n8), ('salsa', k32, n8), ('xsalsa', k32, n24)):
-            add('sc %s %d %s %s p.0.00' % (v, r, key, nonce), 0, '%s-rounds/%d' % (v, r))
+        for v, key, nonce in (('chacha', k32, n12), ('chacha', k16, n12), ('xchacha', k32, n24), ('chachao', k32, n8), ('chachao', k16, n8), ('salsa', k32, n8), ('salsa', k16, n8), ('xsalsa', k32, n24)):
+            add('sc %s %d %s %s p.0.00' % (v, r, key, nonce), 0, '%s-rounds/%d/k%d' % (v, r, spec_len(key)))
         if r != 10:
             add('aead_enc %d %s %s - 00' % (r, k32, n12), 0, 'aead-rounds/%d' % r)
             add('aead_inc %d %s %s a.00 E e.00 fin' % (r, k32, n12), 0, 'aead-context-rounds/%d' % r)
@@ -289,6 +292,42 @@ def run(tier, seed, replay=None):
                 fam = l.split()[0]
                 sig = 'C20:blake2-counter:profile-divergence' if src == 'counter' else 'C20:%s:%s:%s' % (src, fam, kind)
                 rep.violations.append((c, i, sig, 'rel: %s | %s: %s' % (' '.join(a or ['<none>'])[:80], c, ' '.join(b or ['<none>'])[:80]), l, b))
+    # (a') the same comparison at volume: bulk lines (cxv/bulk.py) - millions of curve / field / scalar / Poly1305 calls on derived inputs; an
+    # arithmetic overflow that only the checked profiles trap, or a debug assertion on a legitimate value, shows as PANIC or as a different block hash
+    from .. import bulk as B
+    bplan = BULK['thorough' if thorough else 'quick']
+    blines = []
+    for n, (kind, count, block) in enumerate(bplan):
+        per = max(block, (count // (R.NPROC * 2) // block) * block)
+        st = 0
+        while st < count:
+            blines.append(B.line(kind, (seed * 1000 + 700 + n) % (1 << 31), st, min(per, count - st), block))
+            st += per
+    if replay:
+        blines = [l for l in open(replay).read().splitlines() if l.startswith('bulk ')]
+    bfile = os.path.join(wd, 'bulk-%s-%d.txt' % (tier, seed))
+    R.write_cases(bfile, blines)
+    bres = {}
+    for c in PROFILES:
+        if blines:
+            bres[c], bcr = R.run_driver(bins[c], bfile, len(blines), 'bulk-' + c, nshards=min(R.NPROC, len(blines)), timeout=7200)
+            for cr in bcr:
+                rep.violations.append((c, -1, 'C20:%s:process-died' % c, 'driver (%s profile) died in the bulk phase rc=%s: %s' % (c, cr[1], cr[2][-300:].replace('\n', ' | ')), '', None))
+    bulk_calls = 0
+    for i, l in enumerate(blines):
+        a = bres['rel'].get(i)
+        f = l.split()
+        bulk_calls += int(f[4])
+        for c in PROFILES[1:]:
+            b = bres[c].get(i)
+            rep.evaluations += int(f[4])
+            if a != b:
+                ndiff += 1
+                kind = 'panic-only-in-%s' % c if (b and 'PANIC' in b and not (a and 'PANIC' in a)) else ('panic-only-in-rel' if (a and 'PANIC' in a and not (b and 'PANIC' in b)) else 'value-differs')
+                rep.violations.append((c, i, 'C20:bulk:%s:%s' % (f[1], kind), 'rel: %s | %s: %s' % (' '.join(a or ['<none>'])[:80], c, ' '.join(b or ['<none>'])[:80]), l, b))
+        if a and 'PANIC' in a:
+            rep.violations.append(('rel', i, 'C20:bulk:%s:panic-on-valid-input' % f[1], 'the release build panicked', l, a))
+        classes.add(l)
     # (b) counters against the model (rel; the other profiles are tied to rel by (a))
     for j, l in enumerate(counters):
         i = n_src + j
@@ -316,7 +355,7 @@ def run(tier, seed, replay=None):
             rep.violations.append(('rel', n_src + n_ctr + 2 * j, 'C20:refusal:non-deterministic', 'two executions differ', l, None))
     for k in classes:
         rep.classes[k] = 1
-    extra = {'profiles_compared': PROFILES, 'records_per_profile': len(lines), 'profile_differences': ndiff, 'workload_records': n_src, 'counter_records': n_ctr,
+    extra = {'bulk_calls_per_profile': bulk_calls, 'profiles_compared': PROFILES, 'records_per_profile': len(lines), 'profile_differences': ndiff, 'workload_records': n_src, 'counter_records': n_ctr,
              'refusal_probes': len(refusals), 'refusal_kinds_observed': kinds}
     # (d) sanitizers
     sub = san_lines(sources, 400 if thorough else 120) + counters[::(1 if thorough else 3)] + [l for l, _ in refusals]
